@@ -396,13 +396,13 @@ impl<'xml> DeserializeContent<'xml> for String {
 
 impl<'xml> DeserializeContent<'xml> for i32 {
     fn deserialize_content(d: &mut Deserializer<'xml>) -> DeResult<Self> {
-        d.text(|t| atoi::atoi::<Self>(t.unescape().map_err(invalid_xml)?.as_bytes()).ok_or(DeError::InvalidContent))
+        d.text(|t| crate::utils::parser::parse_integer::<Self>(t.unescape().map_err(invalid_xml)?.as_bytes()).ok_or(DeError::InvalidContent))
     }
 }
 
 impl<'xml> DeserializeContent<'xml> for i64 {
     fn deserialize_content(d: &mut Deserializer<'xml>) -> DeResult<Self> {
-        d.text(|t| atoi::atoi::<Self>(t.unescape().map_err(invalid_xml)?.as_bytes()).ok_or(DeError::InvalidContent))
+        d.text(|t| crate::utils::parser::parse_integer::<Self>(t.unescape().map_err(invalid_xml)?.as_bytes()).ok_or(DeError::InvalidContent))
     }
 }
 
